@@ -7,7 +7,8 @@ import time
 
 VERIF = os.path.dirname(os.path.dirname(os.path.abspath(__file__)))
 SPEC = os.path.join(VERIF, "spec")
-WORK = os.path.join(VERIF, ".work")
+# VERIF_WORK_TAG keeps concurrent runs (seeded-change evaluation) apart
+WORK = os.path.join(VERIF, ".work" + (("_" + os.environ["VERIF_WORK_TAG"]) if os.environ.get("VERIF_WORK_TAG") else ""))
 JAR = "/opt/veriftools/tla/tla2tools.jar:/opt/veriftools/tla/CommunityModules-deps.jar"
 
 
